@@ -7,7 +7,9 @@ DESCR = json.loads((V / "seeded" / "descriptions.json").read_text()) if (V / "se
 rows = ["| id | breaks | change (needs, to manifest) | first verdict | verdict now (`./vf selftest`) | caught by |", "|---|---|---|---|---|---|"]
 FIRST = {"c06_c": "missed (exit 0 quick; exit 2 thorough: timeout)", "c11_a": "missed (exit 2: contract named a renamed parameter)",
          "c11_b": "missed (exit 0: function not under contract)", "c13_b": "missed (exit 2: `mem::replace` unspecified)",
-         "c17_b": "missed (exit 0: counter started at 0)"}
+         "c17_b": "missed (exit 0: counter started at 0)", "c08_b": "missed (exit 0: Bevy system, out of reach)",
+         "r3a_b": "missed (exit 2: Kani harness timed out on the changed code)",
+         "r3b_c": "caught (only by u08n, written after reading the seed's description; Updates::clear was under no check before)"}
 for d in sorted((V / "seeded").iterdir()):
     if not (d / "meta.json").exists():
         continue
